@@ -54,3 +54,10 @@ claim("C16", "model_checking",
       "schema-level change sets are refused. All <=3-table FK-graph scenarios are re-planned with both qualifier settings.",
       "Trusted: the tokeniser's notion of a reference position; deferred plan mode only.",
       "3 C16")
+claim("C08", "model_checking",
+      "function-style TLA+ reference scanner (Lexer.tla) checked by TLC on every input up to length 4 (5); its predictions compared with migrate.Scanner; observations of real scans validated by TLC against ScanTrace.tla",
+      "TLC evaluates Lexer.tla on every input over a 14-symbol alphabet up to length 4 (5 thorough) x 2 option sets and checks the ordered-partition property; the predicted statement lists are compared with the real "
+      "scanner. Every string over a 14-character alphabet up to length 4 (5), grammar-generated inputs (dollar quotes, BEGIN/END, ATOMIC, TRY/CATCH, DELIMITER commands, atlas:delimiter headers, GO batches, multi-byte runes) "
+      "and random bytes are scanned under the option sets of migrate.Stmts and of the three drivers; TLC evaluates Total / InRange / Increasing / TextAtPos / Lossless on each observation.",
+      "Trusted: the harness's gap classifier and rendering of symbols; verdict domain is the four option sets community drivers use (others reported only).",
+      "3 C08")
